@@ -16,7 +16,7 @@ import (
 
 // C17 — either / botheq groups are judged per object, all-empty and all-equal.
 
-var c17MemberTypes = []reflect.Type{gen.TString, gen.TString, gen.TInt, gen.TInt32, gen.TUint8, gen.TFloat64, gen.TBool, reflect.TypeOf([]int(nil)), reflect.TypeOf([]string(nil))}
+var c17MemberTypes = []reflect.Type{gen.TString, gen.TString, gen.TInt, gen.TInt32, gen.TUint8, gen.TFloat64, gen.TBool, gen.TInt64, gen.TUint64, reflect.TypeOf([]int(nil)), reflect.TypeOf([]string(nil))}
 
 // c17Type builds a struct type with 2-6 group-tagged fields in 1-3 groups; the members of one
 // botheq group share a type. Returns the type and, per field, its group index (-1 = plain field).
@@ -84,6 +84,14 @@ func c17Value(rng *rand.Rand, t reflect.Type, gidx []int) (reflect.Value, string
 			f.SetInt(int64(k))
 		case reflect.Uint8:
 			f.SetUint(uint64(k))
+		case reflect.Int64: // neighbours beyond 2^53: equal as float64, different as integers
+			if k != 0 {
+				f.SetInt(int64(1)<<53 + int64(k))
+			}
+		case reflect.Uint64:
+			if k != 0 {
+				f.SetUint(^uint64(0) - uint64(k))
+			}
 		case reflect.Float64:
 			f.SetFloat(float64(k) / 2)
 		case reflect.Bool:
@@ -271,6 +279,18 @@ func c17StructCase(res *core.Result, rng *rand.Rand, t reflect.Type, gidx []int,
 		}
 	case 3:
 		carrier = "top-map"
+		if rng.Intn(3) == 0 {
+			// float64 keys that differ only beyond float32 precision: two entries, two objects
+			m := reflect.MakeMap(reflect.MapOf(gen.TFloat64, t))
+			keys := [][2]float64{{16777216, 16777217}, {0.1, float64(float32(0.1))}, {1e10, 1e10 + 1}}[rng.Intn(3)]
+			for k := 0; k < 2; k++ {
+				v, p := mk()
+				add(p)
+				m.SetMapIndex(reflect.ValueOf(keys[k]), v)
+			}
+			in = m.Interface()
+			break
+		}
 		m := reflect.MakeMap(reflect.MapOf(gen.TString, t))
 		for k := 0; k < 2; k++ {
 			v, p := mk()
